@@ -22,7 +22,8 @@
 (*   TraceTracker.tla  TLC validates recorded step sequences        (leg C) *)
 (*                                                                         *)
 (* Abstract values                                                          *)
-(*  header   [id, c, lvl, fh]  id: path name of the block ("A2.e.f1+2"),    *)
+(*  header   [id, p, c, lvl, fh]  id: path name of the block ("A2.e.f1+2"), *)
+(*           p: id of its parent ("?" unknown),                             *)
 (*           c: its content, lvl: difficulty level (target = max >> lvl),   *)
 (*           fh: the filter header recorded with it: "ok" (what an honest   *)
 (*           oracle attests), "zero" (recorded without filter header) or    *)
@@ -42,8 +43,8 @@
 (***************************************************************************)
 EXTENDS Naturals, Integers, Sequences, FiniteSets, TLC
 
-ToSet(q) == {q[i] : i \in DOMAIN q}
-Min(a, b) == IF a < b THEN a ELSE b
+SeqSet(q) == {q[i] : i \in DOMAIN q}
+MinOf(a, b) == IF a < b THEN a ELSE b
 
 ErrNone == 0
 ErrOrphan == 1
@@ -71,6 +72,10 @@ DbStr(d) == CASE d = 0 -> ""
               [] d > 0 -> "+" \o ToString(d)
               [] OTHER -> ToString(d)
 Token(r) == r.c \o DbStr(r.db) \o (IF r.pow = "bad" THEN "!" ELSE "")
+
+\* the listeners see the transactions of the PROOF (compact) or of the streamed block: a compact
+\* proof that omits the matching transactions shows them an empty block
+Visible(r, c) == IF r.kind = "compact" /\ r.pf = "omit" THEN "e" ELSE c
 
 ForwardWatches(s) == UNION {s.ls[k].w : k \in DOMAIN s.ls}
 ReverseWatches(s) == UNION {s.ls[k].w \cup s.ls[k].s : k \in DOMAIN s.ls}
@@ -100,8 +105,8 @@ ProofVerifies(K, r, prevFh, content, watches) ==
         /\ r.pf # "badfh"
         /\ prevFh = "ok"                               \* attested header = H(filter, recorded prev)
         /\ r.pf = "omit" => Spends(content) \cap watches = {}
-  /\ Cardinality(ToSet(r.att)) >= 1
-  /\ Cardinality(ToSet(r.att) \cap K.trusted) >= (Cardinality(K.trusted) + 1) \div 2
+  /\ Cardinality(SeqSet(r.att)) >= 1
+  /\ Cardinality(SeqSet(r.att) \cap K.trusted) >= (Cardinality(K.trusted) + 1) \div 2
 
 \* ChainTracker::validate_block(height h, prev -> new): first failing check, in the code's order
 Validate(K, s, h, prevH, linkOk, powOk, newLvl, r, content, watches) ==
@@ -171,10 +176,10 @@ AddBlock(s, r, K) ==
   ELSE IF r.kind = "block" THEN Refuse(s2, ErrProof)    \* non-streamed full block not supported
   ELSE
   LET nh == s.h + 1
-      newTip == [id |-> s.tip.id \o "." \o Token(r), c |-> r.c, lvl |-> newLvl,
+      newTip == [id |-> s.tip.id \o "." \o Token(r), p |-> s.tip.id, c |-> r.c, lvl |-> newLvl,
                  fh |-> IF r.pf = "badfh" THEN "bad" ELSE "ok"] IN
-  Accept([s2 EXCEPT !.ls = [k \in DOMAIN s2.ls |-> LsForward(s2.ls[k], k, r.c, nh)],
-                    !.win = <<s.tip>> \o SubSeq(s.win, 1, Min(Len(s.win), K.maxReorg - 1)),
+  Accept([s2 EXCEPT !.ls = [k \in DOMAIN s2.ls |-> LsForward(s2.ls[k], k, Visible(r, r.c), nh)],
+                    !.win = <<s.tip>> \o SubSeq(s.win, 1, MinOf(Len(s.win), K.maxReorg - 1)),
                     !.tip = newTip, !.h = nh,
                     !.mds = IF streamed THEN FALSE ELSE s2.mds])
 
@@ -188,7 +193,8 @@ RemoveBlock(s, r, K) ==
   ELSE
   LET s1 == IF streamed THEN AfterStream(s) ELSE s IN
   IF s.win = <<>> THEN Refuse(Leftover(K, s1, FALSE), ErrTooDeep)     \* deep reorgs not allowed
-  ELSE IF r.prev = "wronghdr" THEN Refuse(Leftover(K, s1, FALSE), ErrChain)
+  ELSE IF r.prev = "wronghdr" \/ s.win[1].id # s.tip.p       \* supplied header # remembered header
+       THEN Refuse(Leftover(K, s1, FALSE), ErrChain)
   ELSE IF SuppliedFh(r) # s.win[1].fh THEN Refuse(Leftover(K, s1, FALSE), ErrChain)
   ELSE
   LET prevH == s.win[1]
@@ -202,14 +208,14 @@ RemoveBlock(s, r, K) ==
   LET v == Validate(K, s, s.h - 1, prevH, TRUE, TRUE, s.tip.lvl, r, s.tip.c, ReverseWatches(s)) IN
   IF v # ErrNone THEN Refuse(sp, v)
   ELSE IF r.kind = "block" THEN Refuse(sp, ErrProof)
-  ELSE IF BackwardPanics(s, s.tip.c) THEN Panic(s)
-  ELSE Accept([s1 EXCEPT !.ls = [k \in DOMAIN s1.ls |-> LsBackward(s1.ls[k], k, s.tip.c, s.h)],
+  ELSE IF BackwardPanics(s, Visible(r, s.tip.c)) THEN Panic(s)
+  ELSE Accept([s1 EXCEPT !.ls = [k \in DOMAIN s1.ls |-> LsBackward(s1.ls[k], k, Visible(r, s.tip.c), s.h)],
                          !.win = Tail(s.win), !.tip = prevH, !.h = s.h - 1])
 
 Step(s, r, K) == IF r.op = "add" THEN AddBlock(s, r, K) ELSE RemoveBlock(s, r, K)
 
 \* a request is applied only where the outpoints it spends are unspent (= forward watches)
-Enabled(s, r) == ToSet(r.need) \subseteq ForwardWatches(s)
+Enabled(s, r) == SeqSet(r.need) \subseteq ForwardWatches(s)
 
 \* the part of the state the harness can observe (the decode states are hidden)
 Obs(s) == [h |-> s.h, tip |-> s.tip, win |-> s.win, ls |-> s.ls]
@@ -222,7 +228,8 @@ Obs(s) == [h |-> s.h, tip |-> s.tip, win |-> s.win, ls |-> s.ls]
 (* class, delivery kind, attesting oracles, previous-headers argument).     *)
 (***************************************************************************)
 AllAtt == <<"o1", "o2", "o3">>
-AttSeqs == {<<"o1">>, <<"o2">>, <<"o3">>, <<"o1", "o2">>, <<"o1", "o3">>, <<"o2", "o3">>, AllAtt}
+\* (the last one: the same oracle attesting twice must count once)
+AttSeqs == {<<"o1">>, <<"o2">>, <<"o3">>, <<"o1", "o2">>, <<"o1", "o3">>, <<"o2", "o3">>, AllAtt, <<"o1", "o1">>}
 B2N(b) == IF b THEN 1 ELSE 0
 
 Dev(r) == B2N(r.link # "tip") + B2N(r.pow # "ok") + B2N(r.db # 0) + B2N(r.pf # "good")
@@ -255,7 +262,7 @@ Requests(maxDev, Contents, Dbs) ==
 (* The property, stated independently of the order of checks in the code.   *)
 (***************************************************************************)
 \* the reference predicate of C13(a): may the tip move by this request in this state?
-MajorityOK(K, r) == Cardinality(ToSet(r.att) \cap K.trusted) >= (Cardinality(K.trusted) + 1) \div 2
+MajorityOK(K, r) == Cardinality(SeqSet(r.att) \cap K.trusted) >= (Cardinality(K.trusted) + 1) \div 2
 
 RetargetOK(K, h, prevLvl, newLvl) ==
   IF h % K.interval = 0
@@ -277,7 +284,7 @@ MayAdvance(K, pre, r) ==
 
 MayRetreat(K, pre, r) ==
   /\ r.op = "rm" /\ pre.win # <<>>
-  /\ r.prev \notin {"wronghdr"} /\ SuppliedFh(r) = pre.win[1].fh
+  /\ r.prev \notin {"wronghdr"} /\ pre.win[1].id = pre.tip.p /\ SuppliedFh(r) = pre.win[1].fh
   /\ RetargetOK(K, pre.h, pre.win[1].lvl, pre.tip.lvl)
   /\ r.kind \in {"compact", "stream"}
   /\ ProofOK(K, r, pre.win[1].fh, pre.tip.c, ReverseWatches(pre))
@@ -290,7 +297,11 @@ MoveValid(K, pre, r, resp, post) ==
   /\ TipMoved(pre, post) => resp.ok = 1
   /\ resp.ok = 1 /\ r.op = "add" =>
         /\ MayAdvance(K, pre, r)
-        /\ post.h = pre.h + 1 /\ post.tip.id = pre.tip.id \o "." \o Token(r)
+        /\ post.h = pre.h + 1
+        /\ post.tip = [id |-> pre.tip.id \o "." \o Token(r), p |-> pre.tip.id, c |-> r.c,
+                       lvl |-> pre.tip.lvl + r.db,
+                       \* the filter header recorded with the new tip is the attested one (never "none")
+                       fh |-> IF r.pf = "badfh" THEN "bad" ELSE "ok"]
         /\ post.win # <<>> /\ post.win[1] = pre.tip
   /\ resp.ok = 1 /\ r.op = "rm" =>
         /\ MayRetreat(K, pre, r)
